@@ -165,6 +165,11 @@ func (c *Client) Hello(localName string) error {
 	if err := validateLine(localName); err != nil {
 		return err
 	}
+	// The name is the only argument of the HELO/EHLO command, white space would split it into
+	// several arguments
+	if strings.ContainsAny(localName, " \t") {
+		return errors.New("smtp: the HELO/EHLO name must not contain white space")
+	}
 	if c.didHello {
 		return errors.New("smtp: Hello called after other methods")
 	}
